@@ -46,6 +46,21 @@ Theorem range_of_clean_body_clean : forall secret lo hi body,
   contains_sub secret (slice lo hi body) = true -> contains_sub secret body = true.
 Proof. exact contains_sub_slice. Qed.
 
+(** ... in every history: whatever byte range of whatever reply is sent, it contains the secret only for a permitted request *)
+Theorem ranged_reply_confined :
+  forall (fix_errline cors : bool) (fs : bytes -> option bytes) (errpage : N -> bytes)
+         (tmpl : list bytes -> bytes -> bytes) (secret : bytes),
+    (forall t c, fs t = Some c -> contains_sub secret c = true -> guarded t c = true) ->
+    (forall s, contains_sub secret (errpage s) = false) ->
+    (forall args b, contains_sub secret (tmpl args b) = true -> contains_sub secret b = true) ->
+    (cors = true -> contains_sub secret (ps_body cors_pst) = false) ->
+  forall cache_on ims_on fix_ovkey fix_clear fix_svary fix_qmkey fix_ims sfilter parse_ims prime override refuses
+         vary_tuple vary_header clear_alias now ops,
+    Forall2 (ranged_ok fs secret prime) ops
+      (run_g true true fix_errline cors fs errpage tmpl cache_on ims_on fix_ovkey fix_clear fix_svary fix_qmkey fix_ims
+             sfilter parse_ims prime override refuses vary_tuple vary_header clear_alias [] now ops).
+Proof. exact ranged_reply_confined_lemma. Qed.
+
 (** every percent-encoded spelling: any subset of positions encoded, each hex digit in either case,
     denotes the same decoded path (a literal '%' has to be encoded itself) ... *)
 Theorem spelling_decodes : forall mask d,
@@ -59,6 +74,26 @@ Theorem ext_lookup_spelling_independent : forall p p' t,
   PathSan.percent_decode p = PathSan.percent_decode p' -> served_file p = Ok (Some t) ->
   served_file p' = Ok (Some t) /\ private_hit true p = is_private t /\ private_hit true p' = is_private t.
 Proof. exact ext_lookup_spelling_independent_lemma. Qed.
+
+(** ... which is the request path decoded exactly ONCE ([%252E] is not a dot) *)
+Theorem single_decode_only : forall p t,
+  served_file p = Ok (Some t) -> PathSan.percent_decode p = 47 :: t.
+Proof. exact single_decode_only_lemma. Qed.
+
+(** an [allow-ips] argument lists exactly the address it parses to ([IpAddr::from_str]); the address compared is the one
+    kvarn's accept loop hands to the pipeline ([rq_addr]: no request header is consulted), and an IPv4 client matches
+    no IPv6 argument and vice versa (an IPv4-mapped client [::ffff:a.b.c.d] is not on an IPv4 list) *)
+Theorem listed_is_exact : forall addr arg,
+  arg_matches addr arg = true <-> parse_ip arg = Some (ip_of_addr addr).
+Proof. exact listed_is_exact_lemma. Qed.
+Theorem address_families_disjoint : forall addr arg,
+  arg_matches addr arg = true ->
+  match parse_ip arg with
+  | Some (IPv4 _) => addr < V6_BASE
+  | Some (IPv6 _) => V6_BASE <= addr
+  | None => False
+  end.
+Proof. exact address_families_disjoint_lemma. Qed.
 
 (** [allow-ips] forces the server cache preference None for every answer of the file, whatever
     [cache] directives stand on the line, so no answer of such a file is ever admitted to the cache *)
@@ -222,4 +257,12 @@ Example file_cache_view_example :
           [(B "public/a.txt", Some (B "!> hide")); (B "public/b.txt", None)] (B "public/a.txt") = Some (B "!> hide") /\
   fc_view true (fun p => Some (B "on disk")) [(B "public/b.txt", None)] (B "public/b.txt") = None /\
   fc_view false (fun p => Some (B "on disk")) [(B "public/b.txt", None)] (B "public/b.txt") = Some (B "on disk").
+Proof. vm_compute. repeat split; reflexivity. Qed.
+Example address_examples :
+  parse_ip (B "::ffff:10.0.0.1") = Some (IPv6 [0; 0; 0; 0; 0; 65535; 2560; 1]) /\
+  parse_ip (B "2001:DB8::0001") = Some (IPv6 [8193; 3512; 0; 0; 0; 0; 0; 1]) /\
+  parse_ip (B "10.0.0.01") = None /\ parse_ip (B "10.0.0.1/32") = None /\ parse_ip (B "1::2::3") = None /\
+  arg_matches W_MAPPED (B "::ffff:10.0.0.1") = true /\ arg_matches W_MAPPED (B "10.0.0.1") = false /\
+  arg_matches 1 (B "10.0.0.1") = true /\ arg_matches 1 (B "::ffff:10.0.0.1") = false /\
+  arg_matches (V4_BASE + 167772161) (B "10.0.0.1") = true.
 Proof. vm_compute. repeat split; reflexivity. Qed.
